@@ -1021,14 +1021,22 @@ fn skip_program(rng: &mut Rng, counter: &mut usize, node_ix: usize, depth: usize
         cur = offers;
     }
     let (nb, sep) = neighbour(hole);
-    let n_before = rng.below(3);
+    // a skipped import / extern crate in the middle of a run of reorderable declarations of its own kind: the run is
+    // sorted and normalised around it, the skipped declaration must neither move nor be rewritten
+    let same_kind_run = hole == Hole::Item && matches!(kind, "use" | "extern-crate") && rng.chance(2, 3);
+    let nb = match (same_kind_run, kind) {
+        (true, "use") => *rng.pick(&["use  NB::{d ,  c} ;", "use  zzNB::{d ,  c} ;", "pub  use  NB :: c ;"]),
+        (true, _) => *rng.pick(&["extern  crate  NB ;", "extern  crate  zzNB ;"]),
+        _ => nb,
+    };
+    let n_before = if same_kind_run { rng.range(1, 3) } else { rng.below(3) };
     let n_after = if kind == "tail-expr" { 0 } else { rng.below(3) };
     let mut before_id = None;
     let mut after_id = None;
     for _ in 0..n_before {
         let bid = fresh("nb");
         let t = nb.replace("NB", &bid);
-        src.push_str(&format!("{}{}{}{}", junk_indent(rng), t, sep, rng.pick(&["\n", "\n\n\n", "   \n"])));
+        src.push_str(&format!("{}{}{}{}", junk_indent(rng), t, sep, if same_kind_run { "\n" } else { *rng.pick(&["\n", "\n\n\n", "   \n"]) }));
         bad.push(t);
         before_id = Some(bid);
     }
